@@ -270,6 +270,20 @@ def _pairs(sym_tree, conc_tree_):
 def eval_under(out_tree, pairs):
     """evaluate symbolic outputs under a concrete assignment of the inputs; elements that still
     depend on other variables (random stubs) come back as None"""
+    subst = None
+    if pairs:
+        # z3.substitute re-validates every (from, to) pair in Python on each call: O(#pairs) per output ELEMENT (Sudoku: 1620
+        # elements x 900 pairs = 66 s).  Same C call, argument arrays built once.
+        n_p = len(pairs)
+        zc = pairs[0][0].ctx
+        F, T = (z3.Ast * n_p)(), (z3.Ast * n_p)()
+        for j, (a, b) in enumerate(pairs):
+            assert a.sort().eq(b.sort()), (a, b)
+            F[j], T[j] = a.as_ast(), b.as_ast()
+
+        def subst(x):
+            return z3.z3._to_expr_ref(z3.Z3_substitute(zc.ref(), x.as_ast(), n_p, F, T), zc)
+
     def ev(sv):
         if sv.conc:
             return np.asarray(sv.a), np.ones(sv.shape, bool)
@@ -280,7 +294,7 @@ def eval_under(out_tree, pairs):
             if not is_sym(x):
                 of[i] = x
                 continue
-            v = z3.simplify(z3.substitute(x, *pairs)) if pairs else z3.simplify(x)
+            v = z3.simplify(subst(x)) if pairs else z3.simplify(x)
             k = sv.dtype.kind
             if k == "b" and (z3.is_true(v) or z3.is_false(v)):
                 of[i] = z3.is_true(v)
@@ -298,8 +312,11 @@ def eval_under(out_tree, pairs):
     return [ev(sv) for sv in leaves(out_tree)]
 
 
-def differential(R, name, in_sym, out_sym, real_out, in_conc):
-    """compare the encoding under a concrete input with the real function's output; mismatch = harness error"""
+def differential(R, name, in_sym, out_sym, real_out, in_conc, ulps=0):
+    """compare the encoding under a concrete input with the real function's output; mismatch = harness error.
+    ulps > 0 (harness attribute DIFF_ULPS): float leaves may differ by that many float32 ulps -- XLA:CPU fuses
+    x*x+y*y into an FMA inside the jitted step while the encoding evaluates the jaxpr primitive by primitive
+    (measured on TSP: 1 ulp on ~4% of the rewards)"""
     pairs = _pairs(in_sym, in_conc)
     res = eval_under(out_sym, pairs)
     real = [np.asarray(jax.random.key_data(x)) if jax.dtypes.issubdtype(getattr(x, "dtype", np.dtype("i4")), jax.dtypes.prng_key) else np.asarray(x)
@@ -310,7 +327,12 @@ def differential(R, name, in_sym, out_sym, real_out, in_conc):
         r = np.asarray(r).reshape(v.shape)
         a, b = v[known], r[known]
         n_cmp += int(known.sum())
-        if a.dtype.kind == "f":
+        if a.dtype.kind == "f" and ulps:
+            a32, b32 = a.astype(np.float32), b.astype(np.float32)
+            with np.errstate(all="ignore"):
+                tol = ulps * np.spacing(np.maximum(np.abs(a32), np.abs(b32)).astype(np.float32))
+                same = bool(np.all((np.abs(a32 - b32) <= tol) | ((a32 == b32)) | (np.isnan(a32) & np.isnan(b32))))
+        elif a.dtype.kind == "f":
             same = np.array_equal(a.astype(np.float32), b.astype(np.float32), equal_nan=True)
         else:
             same = np.array_equal(a, b.astype(a.dtype))
@@ -320,3 +342,20 @@ def differential(R, name, in_sym, out_sym, real_out, in_conc):
             return False
     R.validated += 1
     return True
+
+
+def cofactor(term, atom, value):
+    """term[atom := value], simplified (DESIGN 1.5: equivalence queries are solved per cofactor of the control predicate;
+    structurally identical sub-terms then cancel before the solver sees them)"""
+    if not isinstance(term, z3.ExprRef) or not isinstance(atom, z3.ExprRef):
+        return term
+    subs = [(atom, z3.BoolVal(bool(value)))]
+    if z3.is_eq(atom):  # the same comparison may have been built with its operands swapped
+        l, r = atom.children()
+        subs.append((r == l, z3.BoolVal(bool(value))))
+    t = z3.simplify(z3.substitute(term, *subs))
+    if z3.is_true(t):
+        return True
+    if z3.is_false(t):
+        return False
+    return t
